@@ -40,6 +40,11 @@ def generate(rng, tier) -> dict:
         d = rng.choice([1, 2, 4, 8, 16, 32])
         sc["nbits"] = d
         sc["nchans"] = rng.choice([c for c in (1, 2, 3, 4, 8) if (c * d) % 8 == 0])
+        big = rng.random() < (0.03 if tier == "quick" else 0.08)
+        if big:  # chunks of several kB: size thresholds (pages, coalescing buffers)
+            sc["nchans"] = rng.choice([c for c in (64, 128, 416) if (c * d) % 8 == 0])
+            sc["big"] = True
+            mx = 900
         for _ in range(rng.randint(1, 6)):
             natural = {1: "uint8", 2: "uint8", 4: "uint8", 8: "uint8", 16: "uint16", 32: "float32"}[d]
             dt = natural if rng.random() < 0.5 else rng.choice(DT)
@@ -152,6 +157,8 @@ def exec_fil(sc, ctx, sim, mk) -> None:
 
     d, nch = sc["nbits"], sc["nchans"]
     ctx.probe(f"depth:{d}")
+    if sc.get("big"):
+        ctx.probe("big-chunks")
     ctx.sig.append(f"d{d}")
     fdt = np.dtype(filgen.DTYPES[d])
     hdr = base_header(ctx, nch).new_header({"tsamp": sc["tsamp"], "tstart": sc["tstart"], "dm": sc["dm"], "nchans": nch})
